@@ -380,3 +380,25 @@ func (r *Roles) BoundaryOf(fn *ssa.Function) *Boundary {
 	}
 	return nil
 }
+
+// Label names a function by its role when it has one (stable under
+// renumbering of anonymous functions), else by its short name.
+func (r *Roles) Label(fn *ssa.Function) string {
+	if f := r.FilterByFn[fn]; f != nil {
+		return f.Label()
+	}
+	for _, t := range r.Tags {
+		if t.Renderer == fn {
+			return "tag:" + t.Name + " renderer"
+		}
+		if t.Compiler == fn {
+			return "tag:" + t.Name + " compiler"
+		}
+	}
+	for _, b := range r.Blocks {
+		if b.Renderer == fn {
+			return "block:" + b.Name + " renderer"
+		}
+	}
+	return an.FuncName(fn)
+}
